@@ -162,7 +162,9 @@ static void harness_scenario(int s)
 #ifdef SKIP_STRINGS
 	/* string scenarios (10-12, 16-23) are not decided (see checks/C14.py): entries 10..15 map to 13,14,15 and no-ops */
 	if (s >= 10 && s <= 12) s += 3;
-	else if (s >= 13) s = 0;
+	else if (s == 13) s = 24;
+	else if (s == 14) s = 25;
+	else if (s >= 15) s = 0;
 #endif
 #define K(a, b, c) do { kinds[0] = a; kinds[1] = b; kinds[2] = c; nd = (a != 0) + (b != 0) + (c != 0); } while (0)
 	switch (s) {
@@ -190,6 +192,9 @@ static void harness_scenario(int s)
 	case 21: fmt = "%lld %s";      K(4,3,0); r = ser(out, maxlen, fmt, LL(0), S(1)); break;
 	case 22: fmt = "%s%%%d";       K(3,1,0); r = ser(out, maxlen, fmt, S(0), I(1)); break;
 	case 23: fmt = "%5.1f|%s";     K(2,3,0); r = ser(out, maxlen, fmt, D(0), S(1)); break;
+	/* a %c reached with the record EXACTLY full: strlen(fmt) + 1 + sizeof(int) = 12 resp. 24 */
+	case 24: fmt = "abc%d%c";      K(1,6,0); r = ser(out, maxlen, fmt, I(0), I(1)); break;
+	case 25: fmt = "abcdefghijklmno%d%c"; K(1,6,0); r = ser(out, maxlen, fmt, I(0), I(1)); break;
 	default: PROP(0, "harness: scenario index within range"); return;
 	}
 	PROP(r <= maxlen, "encode reports at most max_len bytes used");
